@@ -110,12 +110,13 @@ pub fn run(r: &mut Runner) -> &'static str {
               r1 Ok (and r2 terminal) => a == V1(r1); a Ok only if one of them is; a incomplete <=> r2 incomplete or (r2 terminal and r1 incomplete). non-trivial = r1 or r2 is Ok or incomplete; distinct by SipHash"
         .into();
     let n = r.n(400_000, 10_000_000);
-    r.random("c06.differential", n, 200, &gen_case, &judge);
+    r.random("c06.differential", n, 200, &gen_case, &|x: &Vec<u8>, st: &mut Stats| crate::engine::in_arena(x, |v| judge(v, st)));
     // the same check over chains of related inputs judged back to back on one thread (history independence)
     let n = r.n(40000, 1000000);
     r.random("c06.chains", n, 260, &|t| crate::gen::gen_chain(t, &gen_case), &|c: &crate::engine::Chain, st: &mut Stats| {
+        // every member is parsed from this thread's reusable read buffer (same address, new contents)
         for x in &c.0 {
-            judge(x, st)?;
+            crate::engine::in_arena(x, |v| judge(v, st))?;
         }
         Ok(())
     });
